@@ -290,7 +290,7 @@ def scenario(kinds, order, dup=True, loss_at=None, closing_at=None, reason_kind=
     from txdbus import error, message
     p, clock = make_connection()
     n = len(kinds)
-    dl = {c: 10 * (k + 1) for k, c in enumerate(order)}
+    dl = {c: 10 * (k + 1) + (0.25 if (k + len(kinds)) % 2 else 0) for k, c in enumerate(order)}          # deadlines need not be whole seconds
     outs, serials = [], []
     for i in range(n):
         before = set(p._pendingCalls)
